@@ -1125,6 +1125,95 @@ def check_case(ctx, case, res, val, stats):
     return ck.nviol
 
 
+def big_model_row(spec, s, a):
+    """next-state items of the structured large model (same formula as harness/impl/c06_impl.py:big_model_row), as the
+    exact rationals of the doubles msdm is given"""
+    S, kind = spec["S"], spec["kind"]
+    fp, fq = F(float(F(spec["p"][a]))), F(float(F(spec["q"][a])))
+    if kind == "corridor":
+        if s == S - 1:
+            return [(s, F(1))]
+        return [(min(s + a + 1, S - 1), fp), (s, fq)]
+    if kind == "ring":
+        return [((s + a + 1) % S, fp), (s, fq)]
+    t, u = (s * spec["mult"][a] + spec["off"][a]) % S, (s + a + 1) % S
+    return [(t, F(1))] if t == u else [(t, fp), (u, fq)]
+
+
+def gen_big_model(rng, above):
+    """corridor / ring / sparse-random MDP whose dense transition tensor has just more than `above` entries"""
+    A = rng.choice([3, 4, 5]) if above <= 2 ** 22 else rng.choice([4, 5])
+    S = int((above / A) ** .5) + rng.randint(2, 40)
+    pq = [("9/10", "1/10"), ("7/10", "3/10"), ("1/3", "2/3"), ("3/7", "4/7"), ("1/10", "9/10"), ("99/100", "1/100")]
+    ch = [rng.choice(pq) for _ in range(A)]
+    return {"kind": rng.choice(["corridor", "ring", "sparse"]), "S": S, "A": A, "above": above,
+            "p": [c[0] for c in ch], "q": [c[1] for c in ch], "r": [str(F(-rng.randint(1, 30), 10)) for _ in range(A)],
+            "mult": [rng.choice([3, 5, 7, 11]) for _ in range(A)], "off": [rng.randint(0, S - 1) for _ in range(A)],
+            "init": ["9/10", "1/10"], "gamma": "19/20"}
+
+
+def check_big_model(ctx, case, res, stats):
+    """MODEL SIZE class: judged by the Python clause only (exact sparse oracle, O(nnz)); no Coq evaluation"""
+    spec, bm = case["big_model"], res.get("big_model")
+    nv = [0]
+
+    def report(sig, info):
+        nv[0] += 1
+        d = {"case": case, "spec": spec}
+        d.update(info)
+        ctx.violation("C06:big-model:" + sig, d, found=True)
+    if not isinstance(bm, dict) or "error" in bm:
+        report("raises", {"impl": bm})
+        return nv[0]
+    stats["big_models"] += 1
+    stats["big_model_entries"] = max(stats.get("big_model_entries", 0), spec["S"] ** 2 * spec["A"])
+    S, A = spec["S"], spec["A"]
+    fd = lambda x: F(float(F(x)))
+    avail = lambda s: range(A - 1) if (A > 1 and s % 7 == 3) else range(A)
+    exp_tf, exp_rf, exp_sarf = {}, {}, {}
+    for s in range(S):
+        for a in avail(s):
+            tot = F(0)
+            for ns, p in big_model_row(spec, s, a):
+                exp_tf[(s, a, ns)] = p
+                if ns != s:
+                    exp_rf[(s, a, ns)] = fd(spec["r"][a])
+                    tot += p * fd(spec["r"][a])
+            exp_sarf[(s, a)] = tot
+    if not bm["state_list_ok"] or bm["action_list"] != list(range(A)) or bm["reach"] != S or bm["shape"] != [S, A, S]:
+        report("lists", {"impl": {k: bm[k] for k in ("state_list_ok", "action_list", "reach", "shape")}})
+    got = {(i, j, k): F(v[0], v[1]) for i, j, k, v in bm["tf_nnz"]}
+    if got != exp_tf:
+        bad = [k for k in set(got) | set(exp_tf) if got.get(k) != exp_tf.get(k)][:5]
+        report("tf:differs-from-functional-definition", {"entries": [[list(k), str(got.get(k)), str(exp_tf.get(k))] for k in bad], "n_bad": len(bad),
+               "clause": "a transition_matrix entry of a large model is not the double next_state_dist returned"})
+    gotr = {(i, j, k): F(v[0], v[1]) for i, j, k, v in bm["rf_nnz"]}
+    if gotr != exp_rf:
+        bad = [k for k in set(gotr) | set(exp_rf) if gotr.get(k) != exp_rf.get(k)][:5]
+        report("rf:differs-from-functional-definition", {"entries": [[list(k), str(gotr.get(k)), str(exp_rf.get(k))] for k in bad]})
+    exp_am_zero = sorted([s, A - 1] for s in range(S) if A > 1 and s % 7 == 3)
+    if sorted(bm["am_zero"]) != exp_am_zero or bm["am_values"] not in ([0.0, 1.0], [1.0]) or not bm["unavailable_rows_zero"]:
+        report("am:differs-from-functional-definition", {"am_zero": bm["am_zero"][:10], "am_values": bm["am_values"], "unavailable_rows_zero": bm["unavailable_rows_zero"]})
+    if F(*bm["rowsum_dev"]) > F(1, 2 ** 52):                   # two doubles per row: |sum - 1| <= 2 ulp
+        report("tf:rows-do-not-sum-to-one", {"max_deviation": str(F(*bm["rowsum_dev"]))})
+    for s in range(S):
+        for a in range(A):
+            v, e = F(*bm["sarf"][s][a]), exp_sarf.get((s, a), F(0))
+            if abs(v - e) > 2 * F(1, 2 ** 52) * abs(e):        # one product + at most one addition of doubles
+                report("sarf:differs-from-functional-definition", {"index": [s, a], "impl": str(v), "expected": str(e)})
+                break
+        else:
+            continue
+        break
+    if [[i, F(*v)] for i, v in bm["s0_nnz"]] != [[0, fd(spec["init"][0])], [1, fd(spec["init"][1])]]:
+        report("s0:differs-from-functional-definition", {"impl": bm["s0_nnz"]})
+    if bm["abs_true"] != ([S - 1] if spec["kind"] == "corridor" else []) or bm["dead_true"] != []:
+        report("abs:differs-from-functional-definition", {"abs_true": bm["abs_true"], "dead_true": bm["dead_true"]})
+    if F(*bm["tt"]) != big_model_row(spec, S // 2, 0)[0][1] or F(*bm["gamma"]) != fd(spec["gamma"]):
+        report("table-or-gamma", {"tt": bm["tt"], "gamma": bm["gamma"]})
+    return nv[0]
+
+
 def plan_same(ck, tag, po, pr, stats, clause):
     if po is None or pr is None:
         return
@@ -1227,6 +1316,10 @@ def run(ctx):
             if not GEN_ABSORBING_SUCC_OUTSIDE and absorbing_successor_outside(c):
                 continue
             cases.append(c)
+        # MODEL SIZE: a few structured large models (dense tensor just above 2^22 and above 2^24 entries)
+        sizes = [2 ** 22, 2 ** 24] if tier == "quick" else [2 ** 22, 2 ** 24, 2 ** 22, 2 ** 23, 2 ** 24, 2 ** 22]
+        for c, above in zip(cases[3::37], sizes):
+            c["big_model"] = gen_big_model(ctx.rng, above)
     impl = ctx.impl("c06_impl.py", {"cases": cases}, shards=8 if tier == "quick" else 16)["results"]
     terms, idx = [], []
     for i, (case, res) in enumerate(zip(cases, impl)):
@@ -1240,7 +1333,7 @@ def run(ctx):
     raw_vals = dict(zip(raw_idx, vals[len(terms):]))
     vals = vals[:len(terms)]
     stats = {k: 0 for k in ("reach_runs", "reach_replay_drift", "cutoff_binding", "absorbing_initial_expanded", "views", "round_trips",
-                            "quick_views", "raw_views", "big_chain", "plan_compared", "plan_skipped_different_lists", "plan_initial_value_rounding")}
+                            "quick_views", "raw_views", "big_chain", "big_models", "big_model_entries", "plan_compared", "plan_skipped_different_lists", "plan_initial_value_rounding")}
     feats = {}
     distinct = set()
     nok = 0
@@ -1251,6 +1344,8 @@ def run(ctx):
             continue
         try:
             nv = check_case(ctx, case, res, v, stats)
+            if case.get("big_model"):
+                nv += check_big_model(ctx, case, res, stats)
             if case.get("raw"):
                 rv = raw_vals.get(i)
                 if isinstance(rv, vlib.CoqError) or rv is None:
@@ -1307,7 +1402,7 @@ def run(ctx):
                 "gamma in {1/2..19/20, 1, 0, 2^-20, 1-2^-20}, 0 and 1 passed as int or float) rewards up to 1e6 or 2^-30 apart, initial probabilities 2^-30 / 1-2^-30, MDPs without any action or without absorbing states; 40%% also go through from_matrices on non-canonical dense arrays (transition rows under unavailable actions, rewards on zero-probability transitions, action-matrix entries 2); relabelled with ints / floats / bools / falsy labels (0, 0.0, False, '', (), frozendict()) / strings / int tuples / (int,str) tuples / frozendicts / nested mixed tuples "
                 "(sortable and unsortable sets), explicit (shuffled, with unreachable states) or inferred state and action lists, 1-3 "
                 "max_states cut-offs in 0..n+1, constant/deterministic QuickMDP argument variants; %s; distinct = structural hash of (MDP, labels, "
-                "explicit lists); every case is non-trivial (>= 1 state with a transition row or a dead end)"
+                "explicit lists); plus 2 (quick) / 6 (thorough) structured large models (corridor / ring / sparse-random, 0.9/0.1-type rows, dense tensor just above 2^22 and 2^24 entries) judged by an exact sparse Python oracle only; every case is non-trivial (>= 1 state with a transition row or a dead end)"
                 % (5 if tier == "quick" else 7, "14%% of the cases let absorbing states have outgoing transitions (successors %s)" % ("unrestricted" if GEN_ABSORBING_SUCC_OUTSIDE else "inside the reachable set")),
         "samples": [{"case": cases[0], "impl": impl[0]}] if cases else [],
         "cases_without_difference": nok, "input_features": feats,
